@@ -1120,6 +1120,9 @@ func (x *Exec) atReturn(st *State, fr *Frame, v *ssa.Return, res Val) {
 		}
 		st.assume(t)
 	}
+	if rs := c.Rets[site]; len(rs) > 0 {
+		x.checkClauses(st, env, rs, "assert", x.topKey, site, true)
+	}
 	x.checkClauses(st, env, c.Ensures, "post", x.topKey, site, false)
 	// goals must not strengthen the path for later goals
 	x.checkClauses(st, env, c.Goals, "goal", x.topKey, site, true)
